@@ -159,7 +159,14 @@ func PerformJoin(
 
 	joinEB := verImpl.NewEventBuilderFromProtoEvent(&joinEvent)
 
-	_ = json.Unmarshal(joinEvent.Content, &input.Content)
+	// Take over the content of the template. It is decoded on its own: decoding
+	// a template content of "null" straight into input.Content would leave us
+	// with a nil map to write to.
+	var templateContent map[string]interface{}
+	_ = json.Unmarshal(joinEvent.Content, &templateContent)
+	for key, value := range templateContent {
+		input.Content[key] = value
+	}
 	input.Content["membership"] = spec.Join
 	if err = joinEB.SetContent(input.Content); err != nil {
 		return nil, &FederationError{
